@@ -682,6 +682,63 @@ fn collect_variables(exp: &Exp, variables: &mut IndexSet<String>) {
     }
 }
 
+/// Read-only view of the bounds analysis for external verification harnesses.
+#[cfg(feature = "verif_hooks")]
+pub mod verif_hooks {
+    use super::{BoundsAnalyzer, BoundsOptions, DEFAULT_TOLERANCE};
+    use crate::parser::model_transformer::{Constraint, DomainVariable, Exp};
+    use indexmap::IndexMap;
+
+    pub struct DerivedBounds {
+        analyzer: BoundsAnalyzer,
+    }
+
+    /// Runs the analysis with an explicit step budget (`None` = the default budget).
+    pub fn analyze_bounds(
+        domain: &IndexMap<String, DomainVariable>,
+        constraints: &[Constraint],
+        max_steps: Option<usize>,
+    ) -> DerivedBounds {
+        let mut options = BoundsOptions::default();
+        options.tolerance = DEFAULT_TOLERANCE;
+        if let Some(max_steps) = max_steps {
+            options.max_steps = max_steps;
+        }
+        DerivedBounds {
+            analyzer: BoundsAnalyzer::analyze_with_options(domain, constraints, options),
+        }
+    }
+
+    impl DerivedBounds {
+        pub fn variable_bounds(&self) -> Vec<(String, f64, f64)> {
+            self.analyzer
+                .variable_bounds
+                .iter()
+                .map(|(name, bounds)| (name.clone(), bounds.lower, bounds.upper))
+                .collect()
+        }
+        pub fn bounds_of(&self, exp: &Exp) -> (f64, f64) {
+            let bounds = self.analyzer.bounds_of(exp);
+            (bounds.lower, bounds.upper)
+        }
+        pub fn reached_limit(&self) -> bool {
+            self.analyzer.reached_iteration_limit
+        }
+        pub fn detected_infeasible(&self) -> bool {
+            self.analyzer.detected_infeasible
+        }
+        /// Applies the derived bounds to a copy of the domain, as compilation does.
+        pub fn applied_domain(
+            &self,
+            domain: &IndexMap<String, DomainVariable>,
+        ) -> IndexMap<String, DomainVariable> {
+            let mut domain = domain.clone();
+            self.analyzer.apply_to_domain(&mut domain);
+            domain
+        }
+    }
+}
+
 #[cfg(test)]
 mod tests {
     use super::{Bounds, BoundsAnalyzer, BoundsOptions, DEFAULT_TOLERANCE};
